@@ -120,6 +120,11 @@ def run(ctx):
             if a['kind'] == 'OrderBook' and len(a['orders']['start']) >= 2:
                 a['created_with'] = 1 + (len(a['name']) + len(a['orders']['start'])) % (len(a['orders']['start']) - 1)
     specs += fresh
+    # full execution after the relaxed problem was solved on the same object
+    soft = gen.gen_many(ctx.seed, n // 3, dict(CFG, p_full_exec=1.0, kinds={'OrderBook': 4, 'SimpleContract': 2, 'Storage': 1}), 'c20soft_')
+    for sp in soft:
+        sp['opts']['soft_first'] = True
+    specs += soft
     specs = ctx.specs(specs)
     res = C.run_impl('reference', specs)
     parts = C.run_impl('assets', specs)
